@@ -48,15 +48,15 @@ Fixpoint first_bad (n : N) (s : state) (l : list (op * obs)) : option (N * N * s
       else Some (n, out_code out, s')
   end.
 
-(* the guards of the theorems, evaluated along a history: (sharing_visible, no reingest, target inside, recs inside,
+(* the guards of the theorems, evaluated along a history: (sharing_visible, target inside, recs inside,
    put coherent, live/trash disjoint) at the state BEFORE each step *)
 Definition guard_ok (s : state) (x : op) : bool :=
-  sharing_visible s && negb (reingest s x) && target_inside x && recs_inside s && put_coherent x && live_trash_disjoint s.
+  sharing_visible s && target_inside x && recs_inside s && put_coherent x && live_trash_disjoint s.
 
-Fixpoint guards (s : state) (l : list op) : list (bool * bool * bool * bool * bool * bool) :=
+Fixpoint guards (s : state) (l : list op) : list (bool * bool * bool * bool * bool) :=
   match l with
   | [] => []
-  | x :: r => (sharing_visible s, negb (reingest s x), target_inside x, recs_inside s, put_coherent x, live_trash_disjoint s)
+  | x :: r => (sharing_visible s, target_inside x, recs_inside s, put_coherent x, live_trash_disjoint s)
               :: guards (fst (step s x)) r
   end.
 
